@@ -1,4 +1,6 @@
 
+val implb : bool -> bool -> bool
+
 val negb : bool -> bool
 
 type nat =
@@ -73,11 +75,36 @@ type z =
 
 module Pos :
  sig
+  type mask =
+  | IsNul
+  | IsPos of positive
+  | IsNeg
+ end
+
+module Coq_Pos :
+ sig
   val succ : positive -> positive
 
   val add : positive -> positive -> positive
 
   val add_carry : positive -> positive -> positive
+
+  val pred_double : positive -> positive
+
+  type mask = Pos.mask =
+  | IsNul
+  | IsPos of positive
+  | IsNeg
+
+  val succ_double_mask : mask -> mask
+
+  val double_mask : mask -> mask
+
+  val double_pred_mask : positive -> mask
+
+  val sub_mask : positive -> positive -> mask
+
+  val sub_mask_carry : positive -> positive -> mask
 
   val mul : positive -> positive -> positive
 
@@ -106,6 +133,8 @@ module N :
  sig
   val add : n -> n -> n
 
+  val sub : n -> n -> n
+
   val compare : n -> n -> comparison
 
   val eqb : n -> n -> bool
@@ -122,6 +151,8 @@ module N :
 
   val to_uint : n -> uint
  end
+
+val hd_error : 'a1 list -> 'a1 option
 
 val nth_error : 'a1 list -> nat -> 'a1 option
 
@@ -701,6 +732,10 @@ val def_reg : instr -> n option
 
 val defs : instr list -> n list
 
+val eres_reg : eres -> n list
+
+val use_regs : instr -> n list
+
 val set_label_of : instr -> string list
 
 val set_labels : instr list -> string list
@@ -1004,6 +1039,563 @@ val shape_eqb : shape -> shape -> bool
 val chk_C18_shape : program -> output -> bool
 
 val chk_C18 : program -> output -> bool
+
+val is_call_or_field : instr -> bool
+
+type seen = (n * bool) list
+
+val written : n -> seen -> bool
+
+val written_by_f7 : n -> seen -> bool
+
+val reg_ok : bool -> seen -> n -> bool
+
+val scan : bool -> seen -> instr list -> bool
+
+val chk_C08_root : bool -> block -> bool
+
+val chk_C08 : bool -> output -> bool
+
+val f7_reads : seen -> instr list -> nat
+
+val f7_count : output -> nat
+
+type viol = { vi_kind : err_kind; vi_val : string option; vi_loc : loc }
+
+type 'a outcome0 =
+| Pass of 'a
+| Fail of viol
+| Stuck
+
+val andthen : 'a1 outcome0 -> ('a1 -> 'a2 outcome0) -> 'a2 outcome0
+
+val require : bool -> err_kind -> string option -> loc -> unit outcome0
+
+val at_1_0 : loc
+
+val at_1_1 : loc
+
+type tables = { tb_types : (string * sem_ty) list;
+                tb_consts : (string * sem_ty) list;
+                tb_funcs : (string * (sem_ty list * sem_ty)) list }
+
+type scope = (string * (sem_ty * bool)) list
+
+type scopes = scope list
+
+val lookup_scopes : string -> scopes -> (sem_ty * bool) option
+
+val declare : string -> sem_ty -> bool -> scopes -> scopes
+
+val type_known : tables -> sem_ty -> bool
+
+val is_some0 : 'a1 option -> bool
+
+val check_args :
+  bool -> (expr -> sem_ty outcome0) -> ident -> sem_ty list -> expr list ->
+  unit outcome0
+
+val check_call :
+  bool -> tables -> (expr -> sem_ty outcome0) -> ident -> expr list -> sem_ty
+  outcome0
+
+val check_name : tables -> scopes -> ident -> sem_ty outcome0
+
+val check_field : tables -> scopes -> ident -> ident -> sem_ty outcome0
+
+val check_operand :
+  bool -> tables -> scopes -> (expr -> sem_ty outcome0) -> expr_val -> sem_ty
+  outcome0
+
+val check_links :
+  bool -> tables -> scopes -> (expr -> sem_ty outcome0) -> sem_ty ->
+  (binop * expr_val) list -> sem_ty outcome0
+
+val check_expr_step :
+  bool -> tables -> scopes -> (expr -> sem_ty outcome0) -> expr -> sem_ty
+  outcome0
+
+val check_expr : bool -> tables -> scopes -> nat -> expr -> sem_ty outcome0
+
+val ex : bool -> tables -> nat -> scopes -> expr -> sem_ty outcome0
+
+val check_lcond : bool -> tables -> nat -> scopes -> lcond -> unit outcome0
+
+val check_cond : bool -> tables -> nat -> scopes -> cond -> unit outcome0
+
+val check_let :
+  bool -> tables -> nat -> scopes -> ident -> bool -> ast_ty option -> expr
+  -> scopes outcome0
+
+val check_assign :
+  bool -> tables -> nat -> scopes -> ident -> expr -> unit outcome0
+
+val check_call_stmt :
+  bool -> tables -> nat -> scopes -> ident -> expr list -> unit outcome0
+
+val no_code_after : err_kind option -> unit outcome0
+
+val check_nested_stmt :
+  bool -> tables -> nat -> sem_ty -> (scopes -> bool -> ifstmt -> unit
+  outcome0) -> (scopes -> stmt list -> unit outcome0) -> bool -> bool ->
+  scopes -> stmt -> (scopes * err_kind option) outcome0
+
+val check_block :
+  bool -> tables -> nat -> sem_ty -> (scopes -> bool -> ifstmt -> unit
+  outcome0) -> (scopes -> stmt list -> unit outcome0) -> bool -> bool ->
+  scopes -> err_kind option -> stmt list -> unit outcome0
+
+val check_ifbody :
+  bool -> tables -> nat -> sem_ty -> (scopes -> bool -> ifstmt -> unit
+  outcome0) -> (scopes -> stmt list -> unit outcome0) -> scopes -> bool ->
+  ifbody -> unit outcome0
+
+val check_if_step :
+  bool -> tables -> nat -> sem_ty -> (scopes -> bool -> ifstmt -> unit
+  outcome0) -> (scopes -> stmt list -> unit outcome0) -> scopes -> bool ->
+  ifstmt -> unit outcome0
+
+val check_loop_step :
+  bool -> tables -> nat -> sem_ty -> (scopes -> bool -> ifstmt -> unit
+  outcome0) -> (scopes -> stmt list -> unit outcome0) -> scopes -> stmt list
+  -> unit outcome0
+
+val check_if :
+  bool -> tables -> nat -> sem_ty -> nat -> scopes -> bool -> ifstmt -> unit
+  outcome0
+
+val check_loop :
+  bool -> tables -> nat -> sem_ty -> nat -> scopes -> stmt list -> unit
+  outcome0
+
+val check_fn_stmt :
+  bool -> tables -> nat -> sem_ty -> scopes -> bool -> stmt ->
+  (scopes * bool) outcome0
+
+val check_fn_stmts :
+  bool -> tables -> nat -> sem_ty -> scopes -> bool -> stmt list -> bool
+  outcome0
+
+val declare_params : scope -> (ident * ast_ty) list -> scope outcome0
+
+val fuel_of_fn : fn_decl -> nat
+
+val check_fn_body : bool -> tables -> fn_decl -> unit outcome0
+
+val check_bodies : bool -> tables -> fn_decl list -> unit outcome0
+
+val check_structs :
+  (string * sem_ty) list -> program -> (string * sem_ty) list outcome0
+
+val consts_mentioned : cval list -> ident list
+
+val consts_before_literal : cval list -> ident list
+
+val r5_checked : bool -> cexpr -> ident list
+
+val all_declared : (string * sem_ty) list -> ident list -> unit outcome0
+
+val check_const_decl :
+  bool -> tables -> ident -> ast_ty -> cexpr -> tables outcome0
+
+val check_param_types :
+  tables -> loc -> (ident * ast_ty) list -> unit outcome0
+
+val check_fn_decl : tables -> fn_decl -> tables outcome0
+
+val check_decls : bool -> tables -> program -> tables outcome0
+
+val fn_decls : program -> fn_decl list
+
+val check_program : bool -> program -> unit outcome0
+
+val stuck_viol : viol
+
+val first_violation : bool -> program -> viol option
+
+val wf_b : program -> bool
+
+val accepted_spec_b : program -> bool
+
+val err_kind_eqb : err_kind -> err_kind -> bool
+
+val loc_eqb : loc -> loc -> bool
+
+val val_agrees : string option -> string option -> bool
+
+val viol_agrees : viol -> err -> bool
+
+val no_errors : output -> bool
+
+val chk_C14 : program -> output -> bool
+
+val chk_C02 : program -> output -> bool
+
+val chk_C01 : program -> output -> bool
+
+val chk_C01_quirk : program -> output -> bool
+
+type ev =
+| EDecl of nat
+| EUse of nat
+| EUseField of nat * string
+| EUseConst of string
+| EAssign of nat
+| ECall of string
+| EExt of n
+| ERet
+
+val ev_eqb : ev -> ev -> bool
+
+val evs_eqb : ev list -> ev list -> bool
+
+type rscope = (string * nat) list
+
+type rscopes = rscope list
+
+val scope_find : string -> rscope -> nat option
+
+val resolve : string -> rscopes -> nat option
+
+val declare_in : string -> nat -> rscopes -> rscopes
+
+val oapp : ev list option -> ev list option -> ev list option
+
+val ev_expr : rscopes -> expr -> ev list option
+
+val ev_val : rscopes -> expr_val -> ev list option
+
+val ev_exprs : rscopes -> expr list -> ev list option
+
+val ev_lcond : rscopes -> lcond -> ev list option
+
+val ev_cond : rscopes -> cond -> ev list option
+
+val ev_stmt : rscopes -> nat -> stmt -> ((rscopes * nat) * ev list) option
+
+val ev_if : rscopes -> nat -> ifstmt -> (nat * ev list) option
+
+val ev_ifbody : rscopes -> nat -> ifbody -> (nat * ev list) option
+
+val ev_stmts : rscopes -> nat -> stmt list -> (nat * ev list) option
+
+val param_scope : nat -> (ident * ast_ty) list -> rscope -> rscope
+
+val src_events : fn_decl -> ev list option
+
+type nmap = (string * nat) list
+
+val nmap_find : string -> nmap -> nat option
+
+val attr_name_at : n -> ((string * n) * sem_ty) list -> string option
+
+val field_name : sem_ty -> n -> string option
+
+val stack_scan :
+  instr list -> nmap -> nat -> nat -> bool -> (nat * ev list) option
+
+val stack_events : instr list -> (nat * ev list) option
+
+val chk_C03_fn : fn_decl -> block -> bool
+
+val chk_C03_fns : fn_decl list -> block list -> bool
+
+val chk_C03 : program -> output -> bool
+
+type rkind =
+| KTy of sem_ty
+| KCond
+| KUnk
+
+type regmap = (n * (rkind * bool)) list
+
+val reg_find : n -> regmap -> (rkind * bool) option
+
+val reg_fix : n -> sem_ty -> regmap -> regmap
+
+val chk_operand : regmap -> eres -> regmap option
+
+val chk_operands : regmap -> eres list -> regmap option
+
+val is_cond_reg : regmap -> n -> bool
+
+val value_eqb0 : value -> value -> bool
+
+type valmap = (string * value) list
+
+val declared : valmap -> value -> bool
+
+val attr_ty_at : n -> ((string * n) * sem_ty) list -> sem_ty option
+
+val field_ty : sem_ty -> n -> sem_ty option
+
+val tys_eqb : sem_ty list -> sem_ty list -> bool
+
+val chk_call : globals -> func_sem -> eres list -> bool
+
+val chk_const : globals -> const_sem -> bool
+
+val scan_C04 :
+  globals -> sem_ty -> instr list -> regmap -> valmap -> (ident * ast_ty)
+  list -> bool
+
+val chk_C04_fn : globals -> fn_decl -> block -> bool
+
+val chk_C04_fns : globals -> fn_decl list -> block list -> bool
+
+val chk_C04 : program -> output -> bool
+
+val pv_eqb : prim_val -> prim_val -> bool
+
+val bop_eqb : binop -> binop -> bool
+
+val cop_eqb : cmpop -> cmpop -> bool
+
+val lop_eqb : logicop -> logicop -> bool
+
+val nthN : 'a1 list -> n -> 'a1 option
+
+val same_len : 'a1 list -> 'a2 list -> bool
+
+type dt =
+| DLit of prim_val
+| DRead of string
+| DConst of string
+| DField of string * n
+| DCall of string * dt list
+| DExt of n
+| DOp of binop * dt * dt
+| DCmp of cmpop * dt * dt
+| DLogic of logicop * dt * dt
+| DUnknown of n
+
+type denv = ((n * dt) * bool) list
+
+val env_find : n -> denv -> (dt * bool) option
+
+val reg_tree : denv -> n -> dt
+
+val operand : denv -> eres -> dt
+
+type usite =
+| ULet of string * dt
+| UAssign of string * dt
+| URet of dt
+| UCondSingle of dt
+| UCondLogic of dt
+| UCall of string * dt list
+
+val scan0 : denv -> instr list -> usite list
+
+val decl_of : instr -> (string * sem_ty) list
+
+val stack_decls : instr list -> (string * sem_ty) list
+
+val decl_index : string -> (string * sem_ty) list -> n -> n option
+
+type tok =
+| KLit of prim_val
+| KVar of n * string
+| KConst of string
+| KField of n * string * n
+| KCallOpen of string
+| KCallSep
+| KCallClose
+| KExt of n
+| KOp of binop
+| KCmp of cmpop
+| KLogic of logicop
+| KOpen
+| KClose
+| KBad
+
+val tok_eqb : bool -> tok -> tok -> bool
+
+val toks_eqb : bool -> tok list -> tok list -> bool
+
+val tokss_eqb : bool -> tok list list -> tok list list -> bool
+
+val var_tok : (string * sem_ty) list -> string list -> string -> tok
+
+val dfield_tok : (string * sem_ty) list -> string list -> string -> n -> tok
+
+val dt_toks :
+  (string * sem_ty) list -> string list -> dt -> tok list -> tok list
+
+type scope0 = (string * n) list
+
+val sc_find : string -> scope0 -> n option
+
+type esite =
+| ELet of string * n * tok list
+| EAssign0 of string * n option * tok list
+| ERet0 of tok list
+| ECondSingle of tok list
+| ECondLogic of tok list
+| ECall0 of string * tok list list
+
+val expr_calls : expr -> (ident * expr list) list
+
+val val_calls : expr_val -> (ident * expr list) list
+
+val name_tok : scope0 -> ident -> tok
+
+val field_tok : (string * sem_ty) list -> scope0 -> ident -> ident -> tok
+
+val expr_toks :
+  (string * sem_ty) list -> scope0 -> expr -> tok list -> tok list
+
+val lcond_toks :
+  (string * sem_ty) list -> scope0 -> lcond -> tok list -> tok list
+
+val etoks : (string * sem_ty) list -> scope0 -> expr -> tok list
+
+val call_site :
+  (string * sem_ty) list -> scope0 -> (ident * expr list) -> esite
+
+val call_sites : (string * sem_ty) list -> scope0 -> expr -> esite list
+
+val lcond_calls : (string * sem_ty) list -> scope0 -> lcond -> esite list
+
+val cond_sites : (string * sem_ty) list -> scope0 -> cond -> esite list
+
+val stmt_sites :
+  (string * sem_ty) list -> stmt -> scope0 -> n -> (esite list * scope0) * n
+
+val stmts_sites :
+  (string * sem_ty) list -> stmt list -> scope0 -> n -> esite list
+
+val param_scope0 : (ident * ast_ty) list -> scope0 -> n -> scope0 * n
+
+val fn_sites : (string * sem_ty) list -> fn_decl -> esite list
+
+val let_name : esite -> string list
+
+val decl_names0 : fn_decl -> esite list -> string list
+
+val opt_N_eqb : n option -> n -> bool
+
+val opt_str_eqb : string option -> string -> bool
+
+val tree_is :
+  bool -> (string * sem_ty) list -> string list -> dt -> tok list -> bool
+
+val site_eqb :
+  bool -> (string * sem_ty) list -> string list -> usite -> esite -> bool
+
+val sites_eqb :
+  bool -> (string * sem_ty) list -> string list -> usite list -> esite list
+  -> bool
+
+val chk_C06_fn : bool -> fn_decl -> block -> bool
+
+val chk_C06_fns : bool -> fn_decl list -> block list -> bool
+
+val chk_C06_gen : bool -> program -> output -> bool
+
+val chk_C06 : program -> output -> bool
+
+val chk_C06_scoped : program -> output -> bool
+
+val expr_exts : expr -> (n * ast_ty) list
+
+val val_exts : expr_val -> (n * ast_ty) list
+
+val lcond_exts : lcond -> (n * ast_ty) list
+
+val cond_exts : cond -> (n * ast_ty) list
+
+val stmt_exts : stmt -> (n * ast_ty) list
+
+val if_exts : ifstmt -> (n * ast_ty) list
+
+val ifbody_exts : ifbody -> (n * ast_ty) list
+
+val fn_exts : fn_decl -> (n * ast_ty) list
+
+val ext_of : instr -> (n * n) list
+
+val stack_exts : instr list -> (n * n) list
+
+val list_N_eqb : n list -> n list -> bool
+
+val chk_order_fn : fn_decl -> block -> bool
+
+val operands_of : instr -> eres list
+
+val ext_pos : n -> (n * n) list -> n option
+
+val nthN0 : 'a1 list -> n -> 'a1 option
+
+val operand_ty_ok : (n * ast_ty) list -> (n * n) list -> eres -> bool
+
+val scan_types : (n * ast_ty) list -> (n * n) list -> n -> instr list -> bool
+
+val count_N : n -> n list -> n
+
+val used_once : instr list -> bool
+
+val chk_types_fn : fn_decl -> block -> bool
+
+val ext_eqb : (n * n) -> (n * n) -> bool
+
+val remove_one : (n * n) -> (n * n) list -> (n * n) list option
+
+val sub_multiset : (n * n) list -> (n * n) list -> bool
+
+val chk_blocks_tree : block -> bool
+
+val all_fns : (fn_decl -> block -> bool) -> fn_decl list -> block list -> bool
+
+val accepted_only : output -> bool -> bool
+
+val chk_C19_order : program -> output -> bool
+
+val chk_C19_types : program -> output -> bool
+
+val chk_C19_blocks : program -> output -> bool
+
+val chk_C19 : program -> output -> bool
+
+val sfx : string -> n
+
+val two32 : n
+
+val name_ok : ident -> bool
+
+val walk_stmt :
+  (bool -> bool -> stmt -> bool) -> (bool -> ifbody -> bool) -> bool -> bool
+  -> stmt -> bool
+
+val walk_if :
+  (bool -> bool -> stmt -> bool) -> (bool -> ifbody -> bool) -> bool ->
+  ifstmt -> bool
+
+val walk_fn_stmt :
+  (bool -> bool -> stmt -> bool) -> (bool -> ifbody -> bool) -> (stmt ->
+  bool) -> stmt -> bool
+
+val chk_kind : bool -> bool -> stmt -> bool
+
+val chk_kind_fn : stmt -> bool
+
+val any_body : bool -> ifbody -> bool
+
+val kinded_fn : fn_decl -> bool
+
+val any_stmt : bool -> bool -> stmt -> bool
+
+val chk_loop_body : bool -> ifbody -> bool
+
+val loops_fn : fn_decl -> bool
+
+val chk_name : bool -> bool -> stmt -> bool
+
+val names_fn : fn_decl -> bool
+
+val fn_in_domain_b : fn_decl -> bool
+
+val in_domain_b : program -> bool
 
 type json =
 | JNull
